@@ -47,7 +47,7 @@ from core import Eval
 
 PROPERTY = "C13"
 DRIVER = "drv_c13"
-PROPS = ["PartituraModel.Props.C13", "PartituraModel.Props.C13Args"]
+PROPS = ["PartituraModel.Props.C13", "PartituraModel.Props.C13Args", "PartituraModel.Props.C13Float"]
 TRUSTED = [
     "scipy.sparse.csc_matrix((data,(row,col)),shape,dtype=int): places each triplet, rejects out-of-range indices; [21:109,:] slicing; toarray()",
     "np.round = round half to even on binary64; np.argsort = some permutation that sorts (ties in any order: order_indep shows no output depends on it)",
